@@ -136,6 +136,45 @@ def check_top_word_nonzero(ctx, F, body, who, exported_by):
     return ctx.ok('R2', role, body.defpath, '%d accepting path(s), each decides `top word != 0` on the word itself' % n, key=key)
 
 
+def check_export_conversions(ctx, F):
+    """Every `From<AnsCoder<..>>` conversion that turns the coder into its words goes through the same export as
+    into_compressed(): it reaches the truncating state chunker through the call graph (never a hand-written copy of the
+    state words, which would bake in a particular State/Word ratio)."""
+    chunker = anchors.state_chunker(F)
+    role = 'a conversion of an AnsCoder into its words uses the shared export (state chunker)'
+    if chunker is None:
+        return
+    n = 0
+    for b in F.bodies:
+        if b.promoted is not None or b.name != 'from' or b.impl_trait is None or not b.impl_trait.startswith('core::convert::From') or '::tests::' in b.defpath:
+            continue
+        if b.arg_count != 1 or not F.ty_s(b.local_ty(1)).startswith(ANS + '<'):
+            continue
+        if not F.ty_s(b.ret_ty if hasattr(b, 'ret_ty') else b.local_ty(0)).startswith('alloc::vec::Vec<'):
+            continue
+        n += 1
+        ctx.touch(b)
+        seen, frontier, found = set(), [b], False
+        for _ in range(3):
+            nxt = []
+            for x in frontier:
+                for cb, blk, t in anchors.local_callees(F, x):
+                    if cb.defpath == chunker.defpath:
+                        found = True
+                    if cb.defpath not in seen:
+                        seen.add(cb.defpath)
+                        nxt.append(cb)
+            frontier = nxt
+        key = 'R7/export-conversion/' + b.defpath
+        if found:
+            ctx.ok('R7', role, b.defpath, 'reaches the state chunker through %s' % ', '.join(sorted(x.rsplit('::', 1)[-1] for x in seen if x != chunker.defpath))[:120], key=key)
+        else:
+            ctx.bad('R7', role, b.defpath, 'the conversion builds the word vector without the shared export (it calls %s): a hand-written copy of the state words assumes a fixed number of words per state and disagrees with into_compressed() for other State/Word ratios' % (
+                ', '.join(sorted(x.rsplit('::', 1)[-1] for x in seen)) or 'nothing'), key=key, loc=rules.loc(b))
+    if n < 1:
+        ctx.unresolved('R7', role, ANS, 'no From<AnsCoder> for Vec conversion found', key='R7/export-conversion/floor')
+
+
 def check_marker_pairing(ctx, F):
     fb = c08.get_body(F, [ANS + '::<', '::from_binary'], 'from_binary')
     key = 'R5/marker-pushed/' + ANS
@@ -277,6 +316,7 @@ def check_refill_threshold(ctx, F):
 def run(ctx):
     F = ctx.F
     check_same_source(ctx, F)
+    check_export_conversions(ctx, F)
     check_marker_pairing(ctx, F)
     check_refill_threshold(ctx, F)
     _fb, helper = anchors.ans_import_loops(F)
